@@ -17,6 +17,13 @@ Case kinds
          the same array (or a view of it, or a view of a field's own storage) to several fields, edits a field
          through data[i] = v; every caller array and every field is observed.  Model: heap of arrays with
          identity (FieldWorld.v part 2) vs the value semantics (coq/Spec/FieldWorldSpec.v).
+  names  NAMES are part of the case: one file holds several dataframes, every dataframe several fields of every type
+         (numeric, fixed string, indexed string, categorical with its key, timestamp); the dataframe names, the field
+         names, the category names and the session's name of the dataset rotate over a name alphabet built from the
+         names the implementation reserves (equal / extended / embedded / truncated / re-cased) and from unusual but
+         valid names (spaces, dots, control characters, non-ASCII, 255..1000 characters).  The listing of the dataset
+         and of every dataframe and every field under its name are observed in the session and after close + reopen
+         in a fresh Session.  Model: name-agnostic — the answers of the sub-cases (wire case 5).
 """
 import itertools, os, struct
 from harness import hot
@@ -541,7 +548,136 @@ def _run_alias(case):
             os.unlink(path)
 
 
+# ------------------------------------------------------------------------------- names as part of the case
+def _nb(name):
+    return list(name.encode())
+
+
+_PLAIN_CLASS = {'numeric': 'NumericField', 'timestamp': 'TimestampField', 'fixed': 'FixedStringField',
+                'categorical': 'CategoricalField'}
+
+
+def _write_named(df, name, sub):
+    """create the field of the sub-case under `name` in dataframe df and run the sub-case's history on it"""
+    if sub['k'] == 'idx':
+        d = df.create_indexed_string(name, chunksize=sub['cs']).data
+        for op in sub['ops']:
+            if op[0] == 'p':
+                arg = list(op[1]); d.write_part(arg); _scribble(arg)
+            elif op[0] == 'c':
+                d.complete()
+            elif op[0] == 'w':
+                arg = list(op[1]); d.write(arg); _scribble(arg)
+            elif op[0] == 'x':
+                d.clear()
+            else:
+                raise ValueError(op)
+        return
+    ft, dt, cs = sub['ft'], sub['dt'], sub.get('cs')
+    if ft == 'numeric':
+        f = df.create_numeric(name, dt, chunksize=cs)
+    elif ft == 'timestamp':
+        f = df.create_timestamp(name, chunksize=cs)
+    elif ft == 'fixed':
+        f = df.create_fixed_string(name, int(dt[1:]), chunksize=cs)
+    elif ft == 'categorical':
+        f = df.create_categorical(name, dt, dict((k, v) for k, v in sub['key']), chunksize=cs)
+    else:
+        raise ValueError(ft)
+    d = f.data
+    parts = [_own_array(pdt, vals, i % 2) for i, (pdt, vals) in enumerate(sub['parts'])]
+    if sub['how'] == 'write':
+        d.write(parts[0]); _scribble(parts[0])
+    else:
+        for p in parts:
+            d.write_part(p); _scribble(p)
+        d.complete()
+
+
+def _observe_named(s, df, name, sub):
+    def go():
+        f = df[name]
+        if sub['k'] == 'idx':
+            assert type(f).__name__ == 'IndexedStringField' and f.indexed
+            assert int(f.chunksize) == sub['cs']
+            ro = _fld.IndexedStringField(s, df._h5group[name], None, write_enabled=False).data
+            return _observe_idx(f, ro, [])
+        ft, dt = sub['ft'], sub['dt']
+        assert type(f).__name__ == _PLAIN_CLASS[ft], type(f).__name__
+        if ft == 'numeric':
+            assert f._nformat == dt
+        elif ft == 'fixed':
+            assert int(f._length) == int(dt[1:])
+        elif ft == 'categorical':
+            assert f.nformat == dt
+        return _observe_plain(f, sub)
+    return _guard(go)
+
+
+def _observe_file(s, ds, frames):
+    """[listing, field, field, ...]: listing = the dataset's dataframe names and every dataframe's field names (sorted)"""
+    listing = [sorted(_nb(k) for k in ds.keys())]
+    obs = []
+    for dfname, fields in frames:
+        df = _guard(lambda: ds[dfname])
+        if isinstance(df, str):
+            listing.append(df)
+            obs += [df] * len(fields)
+            continue
+        assert (dfname in ds) and df.name == dfname
+        listing.append(sorted(_nb(k) for k in df.keys()))
+        for name, sub in fields:
+            obs.append(_observe_named(s, df, name, sub))
+    return [listing] + obs
+
+
+def _run_names(case):
+    Session = _Session
+    s = Session()
+    path = _tmpfile()
+    frames = case['frames']
+    dsn = case.get('ds', 'd')
+    try:
+        ds = s.open_dataset(path, 'w', dsn)
+        if case.get('order'):
+            # every dataframe first, then the fields round-robin over the dataframes
+            DF = [ds.create_dataframe(fr[0]) for fr in frames]
+            for j in range(max(len(fr[1]) for fr in frames)):
+                for df, fr in zip(DF, frames):
+                    if j < len(fr[1]):
+                        _write_named(df, fr[1][j][0], fr[1][j][1])
+        else:
+            for dfname, fields in frames:
+                df = ds.create_dataframe(dfname)
+                for name, sub in fields:
+                    _write_named(df, name, sub)
+        assert s.get_dataset(dsn) is ds
+        sess = _observe_file(s, ds, frames)
+        s.close_dataset(dsn)
+        s.close()
+        s = Session()                       # a fresh session: nothing but the file carries over
+        ds = s.open_dataset(path, case.get('mode', 'r'), dsn)
+        return [sess, _observe_file(s, ds, frames)]
+    finally:
+        try:
+            s.close()
+        except Exception:
+            pass
+        if os.path.exists(path):
+            os.unlink(path)
+
+
+def _names_subs(case):
+    return [sub for _, fields in case['frames'] for _, sub in fields]
+
+
+def _names_listing(case):
+    return [sorted(_nb(fr[0]) for fr in case['frames'])] + [sorted(_nb(n) for n, _ in fr[1]) for fr in case['frames']]
+
+
 def run(case):
+    if case['k'] == 'names':
+        return _run_names(case)
     if case['k'] == 'idx':
         return _run_idx(case)
     if case['k'] == 'multi':
@@ -564,6 +700,8 @@ def _arg_val(x):
 
 
 def to_val(case):
+    if case['k'] == 'names':
+        return [5, [to_val(sub) for sub in _names_subs(case)]]
     if case['k'] == 'multi':
         specs = [[0, sp[1], sp[2]] if sp[0] == 'idx' else [1, sp[1], dt_code(sp[2])] for sp in case['fields']]
         ops = []
@@ -640,6 +778,14 @@ def _dec(v):
 
 
 def from_val(case, v):
+    if case['k'] == 'names':
+        # the model is name-agnostic: the i-th answer is what must be found under the i-th name, in the session and
+        # after reopen; the listing is the set of names created
+        subs = _names_subs(case)
+        ms = [from_val(sub, [v[0][i], v[1][i]]) for i, sub in enumerate(subs)]
+        lst = _names_listing(case)
+        at = lambda r, k: r if isinstance(r, str) else r[k]
+        return tuple([[lst] + [at(x[c], k) for x in ms] for k in (0, 1)] for c in (0, 1))
     m, s = _dec(v[0]), _dec(v[1])
     if case['k'] == 'multi':
         h5 = [i for i, sp in enumerate(case['fields']) if sp[1]]
@@ -843,6 +989,8 @@ def features(case, model):
         return sorted(f | _multi_features(case))
     if case['k'] == 'alias':
         return sorted(f | _alias_features(case))
+    if case['k'] == 'names':
+        return sorted(f | _names_features(case))
     if case['k'] == 'idx':
         f.add('idx-h5' if case['h5'] else 'idx-mem')
         f |= _idx_trace(case)
@@ -911,6 +1059,8 @@ def _is_special(dt, bits):
 
 
 def nontrivial(case, model):
+    if case['k'] == 'names':
+        return any(nontrivial(sub, None) for sub in _names_subs(case))
     if case['k'] == 'multi':
         return sum(1 for i in range(len(case['fields'])) if _multi_written(case, i)) >= 2
     if case['k'] == 'alias':
@@ -942,7 +1092,7 @@ def known(case, impl, model, spec, mode):
                 else:
                     return None
         return 'F-C01e' if hit else None
-    if case['k'] == 'alias':
+    if case['k'] in ('alias', 'names'):
         return None
     if case['k'] == 'plain' and not case['h5'] and case['parts'] and case['parts'][0][0] != case['dt']:
         # only the dtype may differ
@@ -1584,6 +1734,277 @@ def gen_hot(tier, rng):
                     break
 
 
+# ------------------------------------------------------------------------------- names: alphabet, generators
+# names the implementation gives a meaning of its own: the dataset-level group it skips, the HDF5 datasets inside a
+# field's group, the attributes of a field's group
+RESERVED = ['trash', 'values', 'index', 'key_names', 'key_values', 'chunksize', 'fieldtype', 'timestamp']
+DF_RESERVED = ('trash',)          # a dataframe cannot be called like the group the dataset loader skips
+
+_REL = [('equal', lambda r: r), ('suffixed', lambda r: r + '_collections'), ('prefixed', lambda r: 'x_' + r),
+        ('embedded', lambda r: 'un' + r + 'ed'), ('doubled', lambda r: r + r), ('truncated-right', lambda r: r[:-1]),
+        ('truncated-left', lambda r: r[1:]), ('upper', lambda r: r.upper()), ('capitalised', lambda r: r.capitalize()),
+        ('space-after', lambda r: r + ' '), ('space-before', lambda r: ' ' + r), ('dotted', lambda r: r + '.1'),
+        ('numbered', lambda r: r + '2')]
+
+UNUSUAL = ['a b', ' ', 'a.b', '.hidden', '...', 'é€', '\U0001F600', 'a\tb', 'a\nb', 'q\'"', 'a\\b', '%s', '{}', '*', '?',
+           '0', '-1', 'None', 'attrs', 'name', 'data', 'keys', 'd', 'df', '_columns', 'x' * 255, 'x' * 256, 'y' * 1000,
+           'é' * 128, 'n' * 63 + 'é']
+
+
+def _valid_name(n):
+    return bool(n) and '/' not in n and n != '.' and '\x00' not in n
+
+
+def _harvest_reserved():
+    """change-directed: when a loader source of the tree under test differs from the recorded tree, the string literals
+    it compares names with / passes to str predicates are names it may treat specially: they join RESERVED"""
+    if not hot.changed():
+        return []
+    import ast, warnings
+    repo = os.environ.get('VERIF_REPO', '/repo')
+    out = []
+    for rel in ('dataset.py', 'dataframe.py', 'session.py', 'fields.py', 'data_writer.py'):
+        try:
+            with warnings.catch_warnings():
+                warnings.simplefilter('ignore')
+                tree = ast.parse(open(os.path.join(repo, 'exetera', 'core', rel)).read())
+        except Exception:
+            continue
+        for n in ast.walk(tree):
+            cs = []
+            if isinstance(n, ast.Compare):
+                for x in [n.left] + list(n.comparators):
+                    cs += list(x.elts) if isinstance(x, (ast.Tuple, ast.List, ast.Set)) else [x]
+            elif isinstance(n, ast.Call) and isinstance(n.func, ast.Attribute) and n.func.attr in (
+                    'startswith', 'endswith', 'find', 'rfind', 'count', 'split', 'partition', 'strip', 'lstrip', 'rstrip',
+                    'replace', 'get', 'pop'):
+                cs = list(n.args)
+            for c in cs:
+                if isinstance(c, ast.Constant) and isinstance(c.value, str) and 1 <= len(c.value) <= 16 \
+                        and _valid_name(c.value) and c.value.isprintable() and c.value not in RESERVED + out:
+                    out.append(c.value)
+    return out
+
+
+_alpha_cache = []
+
+
+def _name_alphabet():
+    """[(name, relation label)]: related names are adjacent (generators put neighbours into one file)"""
+    if _alpha_cache:
+        return _alpha_cache
+    seen = set()
+    extra = _harvest_reserved()
+    # harvested literals: every relation for at most 6 of them (identifier-like first), 'equal' + 2 for the rest
+    extra.sort(key=lambda x: (not x.isidentifier(), len(x)))
+    for k, r in enumerate(RESERVED + extra[:24]):
+        rels = _REL if k < len(RESERVED) + 6 else _REL[:3]
+        for lab, fn in rels:
+            n = fn(r)
+            if _valid_name(n) and n not in seen:
+                seen.add(n)
+                _alpha_cache.append((n, 'reserved-' + lab))
+    for n in UNUSUAL:
+        if n not in seen:
+            seen.add(n)
+            _alpha_cache.append((n, 'unusual'))
+    return _alpha_cache
+
+
+def _kit(rng=None):
+    """one sub-case of every field type (HDF5-backed), with values that exercise the type"""
+    f64 = FLOAT_POOL['float64']
+    kit = [
+        {'k': 'plain', 'h5': 1, 'ft': 'numeric', 'dt': 'int64', 'how': 'write',
+         'parts': [['int64', [-2 ** 63, 0, 7, 2 ** 63 - 1]]], 'key': None},
+        {'k': 'plain', 'h5': 1, 'ft': 'numeric', 'dt': 'float64', 'how': 'parts',
+         'parts': [['float64', f64[:3]], ['float64', f64[3:7]]], 'key': None},
+        {'k': 'plain', 'h5': 1, 'ft': 'fixed', 'dt': 'S3', 'how': 'parts',
+         'parts': [['S3', [[97, 98], []]], ['S3', [[120, 121, 122], [195, 169]]]], 'key': None},
+        {'k': 'plain', 'h5': 1, 'ft': 'timestamp', 'dt': 'float64', 'how': 'write',
+         'parts': [['float64', [f64[-1], f64[0], f64[2]]]], 'key': None},
+        {'k': 'plain', 'h5': 1, 'ft': 'categorical', 'dt': 'int8', 'how': 'write',
+         'parts': [['int8', [2, 0, 1, 1, -1]]], 'key': [['unknown', 0], ['é', 1], ['depot', 2], ['', -1]]},
+        {'k': 'idx', 'h5': 1, 'cs': 3, 'ops': [['p', ['bin', '']], ['p', ['déchets', 'b€']], ['c']], 'extra': []},
+    ]
+    if rng is not None:
+        # values, partitions and chunk sizes vary
+        pool = _pool('int32')
+        seq = [rng.choice(pool) for _ in range(rng.randint(1, 5))]
+        cut = rng.randint(0, len(seq))
+        kit[0] = {'k': 'plain', 'h5': 1, 'ft': 'numeric', 'dt': 'int32', 'how': 'parts',
+                  'parts': [['int32', seq[:cut]], ['int32', seq[cut:]]], 'key': None, 'cs': rng.choice([None, 1, 2])}
+        strs = [rng.choice(['', 'a', 'é', 'b€', 'hello', '\U0001F600']) for _ in range(rng.randint(1, 5))]
+        cut = rng.randint(0, len(strs))
+        kit[5] = {'k': 'idx', 'h5': 1, 'cs': rng.choice([1, 2, 3, 5, 1 << 20]),
+                  'ops': [['p', strs[:cut]], ['p', strs[cut:]], ['c']], 'extra': []}
+        names = [n for n, _ in _name_alphabet()]
+        kn = rng.sample(names, 3)
+        kit[4] = {'k': 'plain', 'h5': 1, 'ft': 'categorical', 'dt': 'int16', 'how': 'write',
+                  'parts': [['int16', [300, -1, 0, 300]]], 'key': [[kn[0], 0], [kn[1], 300], [kn[2], -1]]}
+    return kit
+
+
+_KIT_NAMES = ['num', 'flt', 'fix', 'ts', 'cat', 'txt']
+
+
+def _distinct(names):
+    return len(set(names)) == len(names)
+
+
+def gen_names(tier, rng):
+    big = tier == 'thorough'
+    A = _name_alphabet()
+    N = [n for n, _ in A]
+    n = len(N)
+    D = [x for x in N if x not in DF_RESERVED]          # dataframe names
+    kit = _kit()
+    # 1. every name as a FIELD name, under two field types (all six in the thorough tier), next to its neighbour in the
+    #    alphabet (a related name) in a dataframe with an ordinary name
+    for i, x in enumerate(N):
+        y = N[(i + 1) % n]
+        for t in (range(6) if big else (i % 6, (i + 3) % 6)):
+            yield {'k': 'names', 'ds': 'd', 'mode': 'r', 'order': 0,
+                   'frames': [['df', [[x, kit[t]], [y, kit[(t + 1) % 6]]]]]}
+    # 2. every name as a DATAFRAME name holding one field of every type; the field names are ordinary in one case and
+    #    rotate over the alphabet (the dataframe's own name among them) in the other; the category names of the
+    #    categorical field rotate too
+    for i, x in enumerate(D):
+        yield {'k': 'names', 'ds': 'd', 'mode': 'r', 'order': 0,
+               'frames': [[x, [[_KIT_NAMES[t], kit[t]] for t in range(6)]]]}
+        fn = [x] + [N[(i * 5 + 7 * t + 1) % n] for t in range(1, 6)]
+        if _distinct(fn):
+            k2 = list(kit)
+            k2[4] = dict(kit[4], key=[[N[i % n], 0], [N[(i + 1) % n], 1], [N[(i + 2) % n], 2], [N[(i + n // 2) % n], -1]])
+            yield {'k': 'names', 'ds': N[(i + 3) % n], 'mode': 'r+' if i % 2 else 'r', 'order': 0,
+                   'frames': [[x, [[fn[t], k2[(t + i) % 6]] for t in range(6)]]]}
+    # 3. several dataframes in one file: a name, its neighbours in the alphabet (names containing / contained in it),
+    #    an ordinary name and a distant name; the same field names in every dataframe; both creation orders
+    m = len(D)
+    for i, x in enumerate(D):
+        dfn = [x, D[(i + 1) % m], 'households', D[(i + m // 2) % m]] + ([D[(i + 2) % m]] if i % 3 == 0 else [])
+        if not _distinct(dfn):
+            continue
+        frames = [[d, [[_KIT_NAMES[(i + j) % 6], kit[(i + j) % 6]], [N[(i + 2 * j) % n], kit[(i + j + 1 + j % 4) % 6]]]]
+                  for j, d in enumerate(dfn)]
+        if all(_distinct([f[0] for f in fr[1]]) for fr in frames):
+            yield {'k': 'names', 'ds': 'd', 'mode': 'r', 'order': i % 2, 'frames': frames}
+    # 4. structured random: 1..5 dataframes x 1..6 fields, names drawn from the alphabet (a third of the draws take a
+    #    neighbour of a name already used), random values / partitions / chunk sizes
+    for _ in range((1500 if big else 150) * (4 if hot.changed() else 1)):
+        used = []
+
+        def draw(pool):
+            for _ in range(20):
+                if used and rng.random() < 0.34:
+                    k = N.index(rng.choice(used))
+                    c = N[(k + rng.choice([-2, -1, 1, 2])) % n]
+                else:
+                    c = rng.choice(pool)
+                if c in pool:
+                    used.append(c)
+                    return c
+            return rng.choice(pool)
+        k = _kit(rng)
+        frames = []
+        for d in range(rng.randint(1, 5)):
+            dn = draw(D)
+            if dn in [fr[0] for fr in frames]:
+                continue
+            fields = []
+            for j in range(rng.randint(1, 6)):
+                fnm = draw(N)
+                if fnm not in [f[0] for f in fields]:
+                    fields.append([fnm, rng.choice(k)])
+            frames.append([dn, fields])
+        yield {'k': 'names', 'ds': rng.choice(N), 'mode': rng.choice(['r', 'r+']), 'order': rng.randint(0, 1),
+               'frames': frames}
+
+
+def _name_labels(name):
+    labs = set()
+    lab = dict(_name_alphabet()).get(name)
+    if lab:
+        labs.add(lab)
+    for r in RESERVED:
+        if name != r and r in name:
+            labs.add('contains-a-reserved-name')
+        if name != r and name in r:
+            labs.add('contained-in-a-reserved-name')
+    if len(name.encode()) > len(name):
+        labs.add('non-ascii')
+    if any(c.isspace() for c in name):
+        labs.add('whitespace')
+    if len(name.encode()) >= 255:
+        labs.add('255+bytes')
+    return labs
+
+
+def _names_features(case):
+    f = set()
+    frames = case['frames']
+    f.add('names-%d-dataframe%s' % (min(len(frames), 3), 's' if len(frames) > 1 else '') + ('+' if len(frames) > 3 else ''))
+    f.add('names-reopen-' + case.get('mode', 'r'))
+    if case.get('order'):
+        f.add('names-fields-created-round-robin-over-dataframes')
+    for dfn, fields in frames:
+        f |= set('names-df:' + l for l in _name_labels(dfn))
+        for fn, sub in fields:
+            typ = 'indexed' if sub['k'] == 'idx' else sub['ft']
+            f.add('names-type:' + typ)
+            f |= set('names-field:' + l for l in _name_labels(fn))
+            if fn == dfn:
+                f.add('names-field-called-like-its-dataframe')
+            if fn in RESERVED:
+                f.add('names-%s-field-called-like-a-reserved-name' % typ)
+            if sub['k'] == 'plain' and sub['ft'] == 'categorical' and any(k in RESERVED for k, _ in sub['key']):
+                f.add('names-category-called-like-a-reserved-name')
+    dfns = [fr[0] for fr in frames]
+    if any(a != b and a in b for a in dfns for b in dfns):
+        f.add('names-one-dataframe-name-contains-another')
+    if len(frames) > 1 and set(n for n, _ in frames[0][1]) & set(n for n, _ in frames[1][1]):
+        f.add('names-same-field-name-in-two-dataframes')
+    if case.get('ds', 'd') in RESERVED:
+        f.add('names-dataset-opened-under-a-reserved-name')
+    return f
+
+
+def _shrink_names(case):
+    frames = case['frames']
+    for i in range(len(frames)):
+        if len(frames) > 1:
+            c = dict(case); c['frames'] = frames[:i] + frames[i + 1:]; yield c
+    for i, (dfn, fields) in enumerate(frames):
+        for j in range(len(fields)):
+            if len(fields) > 1:
+                c = dict(case)
+                c['frames'] = frames[:i] + [[dfn, fields[:j] + fields[j + 1:]]] + frames[i + 1:]
+                yield c
+    taken = set(fr[0] for fr in frames)
+    for i, (dfn, fields) in enumerate(frames):
+        plain = 'df%d' % i
+        if dfn != plain and plain not in taken:
+            c = dict(case); c['frames'] = frames[:i] + [[plain, fields]] + frames[i + 1:]; yield c
+        ft = set(n for n, _ in fields)
+        for j, (fn, sub) in enumerate(fields):
+            plain = 'f%d' % j
+            if fn != plain and plain not in ft:
+                c = dict(case)
+                c['frames'] = frames[:i] + [[dfn, fields[:j] + [[plain, sub]] + fields[j + 1:]]] + frames[i + 1:]
+                yield c
+    for key, plain in (('ds', 'd'), ('mode', 'r'), ('order', 0)):
+        if case.get(key, plain) != plain:
+            c = dict(case); c[key] = plain; yield c
+    # a simpler field under the same name
+    simple = {'k': 'plain', 'h5': 1, 'ft': 'numeric', 'dt': 'int32', 'how': 'write', 'parts': [['int32', [1]]], 'key': None}
+    for i, (dfn, fields) in enumerate(frames):
+        for j, (fn, sub) in enumerate(fields):
+            if sub != simple:
+                c = dict(case)
+                c['frames'] = frames[:i] + [[dfn, fields[:j] + [[fn, simple]] + fields[j + 1:]]] + frames[i + 1:]
+                yield c
+
+
 def gen(tier, rng):
     for c in gen_plain(tier, rng):
         yield c
@@ -1599,6 +2020,8 @@ def gen(tier, rng):
         yield c
     for c in gen_alias(tier, rng):
         yield c
+    for c in gen_names(tier, rng):
+        yield c
 
 
 def shrink(case):
@@ -1609,6 +2032,10 @@ def shrink(case):
 
 
 def _shrink(case):
+    if case['k'] == 'names':
+        for c in _shrink_names(case):
+            yield c
+        return
     if case['k'] == 'multi':
         ops = case['ops']
         n = len(case['fields'])
@@ -1696,17 +2123,32 @@ RULE = ('exhaustive small scope. Indexed strings, memory-backed: every sequence 
         '(offsets and bytes compared in full, reads sampled). Change-directed: for every small integer literal K new in '
         'the tree, chunk sizes K-1, K, K+1 x entry / byte counts K-1, K, K+1, 2K, 2K+1, fields sharing chunk size K, '
         'plain columns and batch buffers of K values; 4x the random budget when any library source changed. '
+        'Names (kind names): an alphabet of ~134 names = 8 names the implementation reserves (trash, values, index, '
+        'key_names, key_values, chunksize, fieldtype, timestamp; plus, when a loader source changed, the string literals '
+        'it compares names with) x 13 relations (equal, suffixed, prefixed, embedded, doubled, truncated left / right, '
+        'upper, capitalised, space before / after, dotted, numbered) + 30 unusual valid names (space, dots, tab, newline, '
+        'quotes, backslash, format directives, non-ASCII, 255 / 256 / 1000 characters, attribute-like words); EVERY name '
+        'as a field name under 2 (6) field types next to a related name, EVERY name (but the reserved group trash) as a '
+        'dataframe name holding a numeric, float, fixed-string, timestamp, categorical (category names from the alphabet) '
+        'and indexed-string field, 4-5 dataframes with related names in one file in both creation orders, the dataset '
+        'opened under alphabet names, reopen r / r+, 150 (1500) random files; the listing of the dataset and of every '
+        'dataframe and every field under its name are compared in the session and after close + reopen in a fresh Session. '
         'Non-trivial = at least one value written (multi: to at least two fields).')
 EXHAUSTIVE = {'quick': True, 'thorough': True}
 TRUSTED = ['numpy slicing / slice assignment / np.zeros and h5py dataset create/resize/slice are modelled as list '
            'operations (np_slice, np_assign in coq/Model/IdxWriter.v), exercised here, not verified',
            'str.encode()/bytes.decode() (UTF-8) stay in the harness: the model sees byte lists',
-           'HDF5 persistence (close + reopen returns the bytes written) is observed by the correspondence only']
+           'HDF5 persistence (close + reopen returns the bytes written) is observed by the correspondence only',
+           'names (of dataframes, fields, categories) never reach the model: a file is a collection of independent '
+           'fields (wire case 5 = the list of the sub-cases\' answers); that the names created are the names listed is '
+           'stated by the harness (from_val)']
 ASSUMPTIONS = ['values written are representable in the field dtype (no casting overflow is modelled)',
                'a field is read only while it has nothing staged itself (other fields may have); write_part(a, '
                'move_mem=True) hands the array over and is outside the property (model fidelity only)',
                'fixed-string values do not end in NUL (numpy S dtype strips trailing NULs)',
-               'chunksize >= 1']
+               'chunksize >= 1',
+               'names are valid HDF5 link names (non-empty, no "/", not "."); a dataframe is not called trash (the group '
+               'HDF5Dataset reserves)']
 TECHNIQUE = ('Coq proof (state-machine model of WriteableIndexedFieldArray and of the memory/HDF5 field arrays = '
              'concat/prefix-sum spec, for every chunksize and partition; a world of several fields: every interleaving '
              '= the per-field histories; a heap of arrays with identity = the value semantics) + exhaustive small-scope '
